@@ -5,26 +5,47 @@ import nodeprop
 PROP = "C16"
 NOTE = ("theorems over the Gallina handler model (queueing and release of early searches); tied to the code by trace "
         "validation and by comparing, on the real node, the stream of a search issued before bootstrap completion with the "
-        "stream of the same search issued afterwards")
+        "stream of the same search issued afterwards (not empty when that one is not; started only after the conclusion)")
 
 
 def checker(sc, meta, log, tr):
+    """An early search must be carried out after the first bootstrap attempt has concluded: it ends, it is started (its first
+    query goes out) no earlier than that conclusion, and it does not come back empty when the same search issued 30 s later finds
+    peers.  (Equality of the two peer sets is NOT required: the routing table keeps changing after bootstrap and the order of
+    arrival of answers steers the search, so two correct searches may reach different holders -- that is C02's subject.)"""
     streams = {}
     ended = set()
+    called = {}
+    started = []          # LOOKUP_START times in order
+    concluded = None
     for (t, kind, body) in log:
-        if kind == "STREAM":
+        if kind == "SEARCH_CALL":
+            called[body.split()[0]] = t
+        elif kind == "STREAM":
             tag, a = body.split()
             streams.setdefault(tag, []).append(a)
         elif kind == "STREAM_END":
             ended.add(body.strip())
+        elif kind == "LOOKUP_START":
+            started.append(t)
+        elif kind == "BOOT_STATE" and concluded is None and ("-> Bootstrapped" in body or "-> IdleBeforeRebootstrap" in body):
+            concluded = t
     out = []
+    if "late" not in called:
+        return []          # (a shrunk scenario without the reference search decides nothing)
     late = set(streams.get("late", []))
     for tag in meta.get("early_tags", []):
+        if tag not in called:
+            continue
         if tag not in ended:
             out.append({"kind": "early search never ended", "tag": tag})
-        elif set(streams.get(tag, [])) != late:
-            out.append({"kind": "a search issued before bootstrap completion yielded other peers than the same search issued after it",
-                        "tag": tag, "early": sorted(set(streams.get(tag, []))), "late": sorted(late)})
+        elif late and not streams.get(tag):
+            out.append({"kind": "a search issued before bootstrap completion came back empty although the same search issued "
+                                "30 s later finds peers", "tag": tag, "called_at": called[tag], "bootstrap_concluded_at": concluded,
+                        "late": sorted(late)})
+    if concluded is not None and any(t < concluded for t in started):
+        out.append({"kind": "a search was started before the first bootstrap attempt had concluded", "lookup_starts": started[:4],
+                    "bootstrap_concluded_at": concluded})
     if "late" not in ended:
         out.append({"kind": "late search never ended"})
     return out
@@ -39,7 +60,8 @@ def run(res):
         res, PROP, NOTE, gen, checker, 16, 300,
         "one real node bootstrapping against 2..20 scripted responders (peers preloaded on some); the same non-announcing search "
         "is issued at t = 0, a few ms later, between initial contact and completion, and 30 s after completion; the checker "
-        "compares the peer sets yielded; every event is replayed through the Coq model (queue, release order). distinct = "
+        "requires every early search to end, to be started no earlier than the first bootstrap conclusion, and not to come back "
+        "empty when the late twin finds peers; every event is replayed through the Coq model (queue, release order). distinct = "
         "distinct scenarios.",
         [])
 
